@@ -32,7 +32,9 @@ CONSTANTS
   MaxDraws,     \* the position of the nugget stream saturates here (keeps the model finite)
   InitModels,   \* models at construction
   UpdModels,    \* models handed over by the combined generator.update(model, period, mode_no) action
-  DkRefresh     \* TRUE: Fourier.update recomputes delta_k / modes when the model changed (after the fix)
+  DkRefresh,    \* TRUE: Fourier.update recomputes delta_k / modes when the model changed (after the fix)
+  RefusedAtomic \* TRUE: a refused Fourier.update leaves the generator untouched (code after the repair);
+                \* FALSE: period / delta_k are overwritten before the odd mode number is refused
 
 VARIABLES pm, seed, modeNo, period, op,          \* ideal / public
           gm, sobj, ztag, stag, dk, modes, draws  \* code-shaped, functions on {"A","B"}
@@ -44,6 +46,7 @@ vars  == <<pm, seed, modeNo, period, op, gm, sobj, ztag, stag, dk, modes, draws>
 Copies == {"A", "B"}
 Keep == 0                         \* "no seed given" (numpy.nan in the code)
 None == [x \in {} |-> 0]
+NoModel == [none |-> TRUE]        \* "no model handed over"
 
 Model == [var : VarVals, len : LenVals, anis : AnisVals, ang : AngVals, nug : NugVals]
 
@@ -200,6 +203,26 @@ GenUpdate(m, p, n) ==
   /\ LET f(c) == UpdateCopyM(c, m, Keep, p, n) IN Apply(f)
   /\ UNCHANGED seed
 
+(* a request the Fourier generator refuses (ValueError: odd mode number), caught by the caller
+   who then goes on:
+     generator.mode_no = <odd>  /  generator.update(mode_no = <odd>[, seed = s])
+     generator.update(model = m, period = p, mode_no = <odd>)
+   (m may be NoModel, p may be Keep; m is handed to the generator only, srf.model stays).
+   Nothing may change: the settings the objects report afterwards are the old ones and the next
+   Call must return their field. *)
+GenRefused(m, p) ==
+  /\ Kind = "Fourier"
+  /\ op' = [name |-> "GenRefused", m |-> m, p |-> p]
+  /\ IF RefusedAtomic \/ (m = NoModel /\ p = Keep)
+     THEN UNCHANGED <<pm, seed, modeNo, period>> /\ UNCHANGED hvars
+     ELSE \* code before the repair: `period` and `delta_k` were overwritten before the check
+          LET per1 == IF p # Keep THEN p ELSE period
+              gmod(c) == IF m # NoModel THEN m ELSE gm[c]
+          IN /\ period' = per1
+             /\ dk' = [c \in Copies |-> IF p # Keep \/ (DkRefresh /\ m # NoModel /\ m # gm[c])
+                                         THEN DkOf(per1, gmod(c)) ELSE dk[c]]
+             /\ UNCHANGED <<pm, seed, modeNo, gm, sobj, ztag, stag, modes, draws>>
+
 Next ==
   \/ \E s \in SeedVals \cup {Keep} : Call(s)
   \/ \E v \in VarVals : InPlace("var", v)
@@ -213,6 +236,7 @@ Next ==
   \/ \E s \in SeedVals : GenSeed(s)
   \/ \E s \in SeedVals \cup {Keep} : GenReset(s)
   \/ \E m \in UpdModels, p \in Periods \cup {Keep}, n \in ModeNos \cup {Keep} : GenUpdate(m, p, n)
+  \/ \E m \in UpdModels \cup {NoModel}, p \in Periods \cup {Keep} : GenRefused(m, p)
 
 Spec == Init /\ [][Next]_vars
 
@@ -234,7 +258,8 @@ Coherent == Calling => \A c \in Copies : CoherentCopy(c)
    divided by the anisotropy in force; a shift by the period along axis d changes the
    phase of mode n by 2 pi n anisUsed / anisNow: periodic iff the ratios agree *)
 Periodic == (Calling /\ Kind = "Fourier") =>
-  \A c \in Copies : dk[c].anis = pm.anis /\ dk[c].period = period
+  \A c \in Copies : /\ dk[c].anis = pm.anis /\ dk[c].period = period
+                     /\ modes[c].dk.anis = pm.anis /\ modes[c].dk.period = period   \* the mesh actually summed
 
 (* object identity of seeds is not observable *)
 IdentityIrrelevant ==
